@@ -8,11 +8,6 @@ optimisation: command-line defines, functions).  The unoptimised assembler works
 -/
 namespace Casm
 
-def SymDef.keep (s : SymDef) (b : Bool) : SymDef := { s with resolved := s.resolved && b }
-
-def Defs.unfS (H : Nat → Bool) (d : Defs) : Defs :=
-  { d.unfreeze with symbols := (List.range d.symbols.length).map fun i => (d.symbols.getD i none).map fun s => s.keep (H i) }
-
 theorem unfS_symbols_getD (H : Nat → Bool) (d : Defs) (r : Nat) :
     (d.unfS H).symbols.getD r none = (d.symbols.getD r none).map fun s => s.keep (H r) := by
   unfold Defs.unfS
